@@ -156,6 +156,28 @@ class Evaluator:
                 else:
                     raise AnalysisError(f"{self.where}: subscript '{core.src(p)}'")
             return _index(a, idx)
+        if isinstance(e, ast.ListComp) and len(e.generators) > 1 and all(not g.ifs and isinstance(g.target, ast.Name) for g in e.generators):
+            # nested generators over literal sequences: the Cartesian product in source order
+            import itertools
+
+            seqs = []
+            for g in e.generators:
+                v = self.ev(g.iter)
+                if not isinstance(v, list):
+                    raise AnalysisError(f"{self.where}: comprehension over a scalar")
+                seqs.append(v)
+            out = []
+            saved = {g.target.id: self.env.get(g.target.id) for g in e.generators}
+            for combo in itertools.product(*seqs):
+                for g, val in zip(e.generators, combo):
+                    self.env[g.target.id] = val
+                out.append(self.ev(e.elt))
+            for k_, v_ in saved.items():
+                if v_ is None:
+                    self.env.pop(k_, None)
+                else:
+                    self.env[k_] = v_
+            return out
         if isinstance(e, ast.ListComp) and len(e.generators) == 1 and not e.generators[0].ifs and isinstance(e.generators[0].target, ast.Name):
             # iterating an array yields its rows
             it = self.ev(e.generators[0].iter)
